@@ -4,6 +4,7 @@ from core import Case, REPO
 
 PROP = 'C11'
 COQ_FILES = ['Extract/C11.v', 'Glue/Bech32Glue.v', 'Properties/C11.v']
+TIE_FILES = ['Properties/TieEncoding.v']
 DRIVER = 'c11'
 IMPL = 'harness/impl/c11_impl.py'
 ALLOWED_AXIOMS = []
